@@ -23,7 +23,7 @@
 (* whole signal (delayed by the horizon after pastify()).  How the input   *)
 (* was cut into batches does not occur in the contract at all.             *)
 (***************************************************************************)
-EXTENDS Dense, Past, Norm, Json, IOUtils, TLCExt
+EXTENDS DenseOn, Past, Norm, Json, IOUtils, TLCExt
 
 Cases == JsonDeserialize(IOEnv.TRACE_FILE)
 NCases == Len(Cases)
@@ -39,7 +39,9 @@ SeqToSet(s) == {s[i] : i \in 1..Len(s)}
 NewObj(o) == [cfg |-> [S |-> o.S, M |-> o.mode, vars |-> SeqToSet(o.vars)],
               phase |-> "new", phi |-> Null, inst |-> Null,
               fed |-> [v \in SeqToSet(o.vars) |-> <<>>], emitted |-> <<>>, nupd |-> 0, mu |-> 0, last |-> <<>>, rets |-> <<>>, lastw |-> <<>>,
-              dead |-> FALSE, gets |-> <<>>]
+              dead |-> FALSE, gets |-> <<>>,
+              \* binding to the operational model DenseOn!UpdateC: its memory, whether it applies, first update that differed
+              mem |-> <<>>, modelled |-> FALSE, drift |-> 0, compared |-> 0]
 InitMs(c) == [i \in 1..Len(c.objs) |-> NewObj(c.objs[i])]
 NoCase == [objs |-> <<>>, events |-> <<>>, rels |-> <<>>, tid |-> 0, skip |-> <<>>]
 CaseAt(i) == IF i <= NCases THEN Cases[i] ELSE NoCase
@@ -78,6 +80,23 @@ Mismatch(out, ex, d0, n, h, lo2, hi2) ==
   IF bad = {} THEN 0 ELSE CHOOSE k \in bad : \A j \in bad : k <= j
 
 ---------------------------------------------------------------------------
+\* The operational model of the online monitor (DenseOn.tla) runs next to the contract: it is installed for the AST
+\* in force when it covers all its operators (standard semantics), and every update() is also given to it.
+\* A difference (returned batch, error path) is recorded as model drift - a diagnostic, not a verdict.
+Install(m) == IF m.cfg.M.sem = "standard" /\ OnlineCOK(m.inst)
+              THEN [m EXCEPT !.mem = InitMemC(m.inst), !.modelled = TRUE] ELSE [m EXCEPT !.mem = <<>>, !.modelled = FALSE]
+Doubled(sl) == [i \in 1..Len(sl) |-> <<IF sl[i][1] >= PInf THEN PInf ELSE 2 * sl[i][1], sl[i][2]>>]
+HasUndefL(sl) == \E i \in 1..Len(sl) : sl[i][2] = Undef
+ModelStep(m, e) ==
+  IF ~m.modelled \/ m.drift # 0 THEN m
+  ELSE
+    LET batch == [v \in VarsOf(m.inst) |-> IF v \in DOMAIN e.w THEN e.w[v] ELSE <<>>]
+        r == UpdateC(m.inst, m.mem, batch, m.cfg.S, {}) IN
+    IF ~r.err /\ HasUndefL(r.ret) THEN [m EXCEPT !.modelled = FALSE]
+    ELSE IF r.err # (e.exc # NoExc) \/ (~r.err /\ Doubled(r.ret) # e.ret) THEN [m EXCEPT !.drift = m.nupd]
+    ELSE IF r.err THEN [m EXCEPT !.modelled = FALSE]
+    ELSE [m EXCEPT !.mem = r.M, !.compared = m.compared + 1]
+
 \* dense time: a bound denotes duration / default unit time units; the model needs whole cells (other cases skipped)
 IsWritten(obj) == "written" \in DOMAIN obj
 DenseU(obj) == [def |-> obj.units.def, pnum |-> 1, pden |-> 1, punit |-> obj.units.def]
@@ -87,10 +106,10 @@ ApplyParse(m, e, obj, step) ==
       phi0 == Desugar(IF IsWritten(obj) THEN NormAst(obj.written, DenseU(obj)) ELSE obj.phi)
       impl == IF IsWritten(obj) /\ obj.implAst.op # "none" THEN NormAst(obj.implAst, DenseU(obj)) ELSE obj.implAst
       f2 == IF f1 = Ok /\ obj.implKnown /\ impl # phi0 THEN F("parse.ast", step, phi0, impl) ELSE Ok IN
-  R([m EXCEPT !.phase = "parsed", !.phi = phi0, !.inst = phi0], f1 \o f2, 0)
+  R(Install([m EXCEPT !.phase = "parsed", !.phi = phi0, !.inst = phi0]), f1 \o f2, 0)
 
 ApplyPastify(m, e, step) ==
-  IF Pastifiable(m.phi) THEN R([m EXCEPT !.phase = "pastified", !.inst = Pastify(m.phi, {})],
+  IF Pastifiable(m.phi) THEN R(Install([m EXCEPT !.phase = "pastified", !.inst = Pastify(m.phi, {})]),
                                ExcClass(TRUE, e, "pastify.exc", step), 0)
   ELSE R(m, ExcClass(FALSE, e, "pastify.exc", step), 0)
 
@@ -137,7 +156,7 @@ ApplyUpdate(m, e, step) ==
         f0 == ExcClass(TRUE, e, "update.exc", step)
         f1 == IF f0 = Ok /\ ~Monotone(m1.emitted) THEN F("update.monotone", step, "non-decreasing time-stamps", m1.emitted) ELSE Ok
         f2 == IF f0 = Ok /\ ~e.same THEN F("update.argsMutated", step, "unchanged", "changed") ELSE Ok IN
-    R(m1, f0 \o f1 \o f2, 0)
+    R(ModelStep(m1, e), f0 \o f1 \o f2, 0)
 
 \* the value part of the online contract is evaluated when the whole signal is known (end of the case, or a reset)
 OnlineValueFail(m, step) ==
@@ -155,7 +174,7 @@ OnlineValueFail(m, step) ==
 ApplyReset(m, e, step) ==
   LET f0 == ExcClass(TRUE, e, "reset.exc", step)
       fv == OnlineValueFail(m, step) IN
-  R([m EXCEPT !.phase = "online", !.fed = [v \in m.cfg.vars |-> <<>>], !.emitted = <<>>, !.nupd = 0], fv \o f0, 0)
+  R(Install([m EXCEPT !.phase = "online", !.fed = [v \in m.cfg.vars |-> <<>>], !.emitted = <<>>, !.nupd = 0]), fv \o f0, 0)
 
 \* C19: a *discrete-time* object evaluated inside a dense-time case; its result (checked by C01's own trace
 \* specification) is only recorded here, as the samples <<2 * time-stamp, value>>, for the relation "sampled_eq"
@@ -260,7 +279,10 @@ Verdict(c, fl) ==
    exp |-> IF fl = Ok THEN "" ELSE ToString(fl[1].exp),
    got |-> IF fl = Ok THEN "" ELSE ToString(fl[1].got),
    explained |-> Explained(c, fl),
-   undef |-> info.undef, steps |-> info.steps]
+   undef |-> info.undef, steps |-> info.steps,
+   \* binding diagnostic: update() calls that returned exactly what DenseOn!UpdateC returns / first one that did not
+   compared |-> LET RECURSIVE Sum(_) Sum(i) == IF i > Len(ms) THEN 0 ELSE ms[i].compared + Sum(i + 1) IN Sum(1),
+   drift |-> \E i \in 1..Len(ms) : ms[i].drift # 0]
 
 TInit == tid = 1 /\ l = 1 /\ ms = InitMs(CaseAt(1)) /\ fail = Ok /\ info = [undef |-> 0, steps |-> 0]
 
